@@ -59,6 +59,10 @@ def enumerate_states(tier):
                 if tier != "thorough" and len(w) == 2 and b == "b2" and sel == "dyn":
                     continue
                 states.append(dict(key="d_%s_%s_%s" % ("_".join(w), sel, b), word=list(w), sel=sel, bounds=b))
+                # the other spellings of the dynamic impl block: `#[entrait(dyn)]`, `#[entrait(ref dyn)]`
+                if sel == "dyn" and len(w) == 1 and b == "b0":
+                    for sp in ("dyn", "ref dyn"):
+                        states.append(dict(key="ds_%s_%s" % (w[0], sp.replace(" ", "")), word=list(w), sel=sel, bounds=b, spell=sp))
                 # the impl blocks stamped out by macro_rules with the target type as a `$t:ty` fragment, next to free functions
                 # named like the methods (the delegating call must stay `Self::m(..)`)
                 if set(w) <= {"z0", "z1", "z2", "zs"} and b in ("b0", "b1"):
@@ -146,7 +150,7 @@ def render(s):
         L.append("    pub struct %s;" % t)
         if s.get("tyfrag"):
             L.append("    macro_rules! blk_%s { ($t:ty) => {" % t)
-        L.append("    #[::entrait::entrait%s]" % ("(ref)" if dyn else ""))
+        L.append("    #[::entrait::entrait%s]" % ("(%s)" % s.get("spell", "ref") if dyn else ""))
         if at:
             L.append("    " + at)
         L.append("    impl TrImpl for %s {" % ("$t" if s.get("tyfrag") else t))
